@@ -115,7 +115,7 @@ impl Built {
     }
 }
 
-const NLEAVES: usize = 10;
+const NLEAVES: usize = 14;
 
 fn leaf(i: usize, abv: usize) -> Built {
     let (text, val, depth, kinds) = match i % NLEAVES {
@@ -131,7 +131,12 @@ fn leaf(i: usize, abv: usize) -> Built {
         6 => ("yes()", BV::One(true), 1, K_CALL),
         7 => ("nowi() == 42", BV::One(true), 1, K_CALL),
         8 => ("optb( ) == \"dflt\"", BV::One(true), 1, K_CALL),
-        _ => ("optb(\"q\") == \"dflt\"", BV::One(false), 1, K_CALL),
+        9 => ("optb(\"q\") == \"dflt\"", BV::One(false), 1, K_CALL),
+        // parentheses, brackets and quotes that are literal data, not nesting (regex groups, raw strings)
+        10 => ("s matches \"^(x|(a(b(c)?)?)?)$\"", BV::One(true), 0, 0),
+        11 => ("s == r#\"5\" (inch) ((((display))))\"#", BV::One(false), 0, 0),
+        12 => ("s matches \"^[^\\\"(]+$\"", BV::One(true), 0, 0),
+        _ => ("s matches r#\"^\"?\\(((compatible))[^)]*\\)\"?$\"#", BV::One(false), 0, 0),
     };
     Built { text: text.into(), val, depth, chain: false, kinds, pos: 0, hexname: false }
 }
